@@ -20,6 +20,7 @@ CONSTANTS
   WithB = FALSE
   AllOrders = FALSE
   RestartIters = {1}
+  MaxLeg = 9
 VIEW mcview
 INVARIANT TypeOK
 INVARIANT NoError
